@@ -1,6 +1,16 @@
 /* harnesses: allocate the registered objects, register them with the protocol ghost, call the function under contract */
+#ifdef CV_REG_STACK
+/* Registered objects as LOCALS of the harness (constant addresses) and the owner cell ASSIGNED (the future or null): symbolic execution then
+ * decides `p == gh_P_cell` / `p == gh_F_slot` in the primitives syntactically and resolves every dereference of the claimed pointer to the
+ * registered future itself.  With malloc (may return null -> the address is an if-then-else) and a cell content that is only ASSUMED equal
+ * to the future (PROTF_WF), the claimed pointer has no value set: every write through it is expanded over all candidate objects
+ * (8.6M variables / 37M clauses for set_value<int>, out of memory for promise<void>); with this registration the same unit has 0.14M variables. */
+#define REG_PROMISE(p) gh_INSTANCE = (void *)AW_INSTANCE; gh_DISABLED = (void *)AW_DISABLED; PROM p##_obj; PROM *p = &p##_obj; gh_P_cell = P_CELL(p)
+#define REG_FUTURE(f)  FUT f##_obj; FUT *f = &f##_obj; gh_F_fut = f; gh_F_slot = F_SLOT(f); if (gh_P_cell) { if (nondet_bool()) *gh_P_cell = f; else *gh_P_cell = 0; }
+#else
 #define REG_PROMISE(p) gh_INSTANCE = (void *)AW_INSTANCE; gh_DISABLED = (void *)AW_DISABLED; PROM *p = malloc(sizeof(PROM)); __CPROVER_assume(p != 0); gh_P_cell = P_CELL(p)
 #define REG_FUTURE(f)  FUT *f = malloc(sizeof(FUT)); __CPROVER_assume(f != 0); gh_F_fut = f; gh_F_slot = F_SLOT(f)
+#endif
 #ifdef CV_HAS_pr_claim
 void h_claim(void) { REG_PROMISE(p); FUT *f = malloc(sizeof(FUT)); gh_F_fut = f; gh_F_slot = 0; FUT *r = pr_claim(p); if (r) __CPROVER_assert(0, "SENTINEL reachable: claim won"); else __CPROVER_assert(0, "SENTINEL reachable: claim lost"); }
 #endif
